@@ -170,8 +170,20 @@ def gen_c01(rng, idx, tier, faults):
             r = rng.random()
             if r < 0.12:
                 seq.append({"op": "RESTART", "obj": name})
-            if r > 0.9:
+            if r > 0.8:
+                # cold refit of the same object, possibly re-parameterised (fewer selections,
+                # another starting point): "cold or warm-started" histories
+                if r > 0.86:
+                    newp = {"n_to_select": n_form(rng, rng.randint(1, max(1, cur)), n_from)}
+                    if fam in ("fps", "pcovfps", "voronoi") and rng.random() < 0.5:
+                        newp["initialize"] = rng.randrange(n_from)
+                    seq.append({"op": "SET", "obj": name, "params": newp})
+                    cur = None
                 seq.append({"op": "FIT", "obj": name, "X": xn, "y": yn, "warm": False, "env": mk_env()})
+                if cur is None:
+                    from .refmodels import resolve_n_to_select
+
+                    cur = resolve_n_to_select(newp["n_to_select"], n_from)
                 continue
             if cur >= n_from:
                 break
@@ -194,8 +206,16 @@ def gen_c06(rng, idx, tier, faults):
     heap, ops = {}, []
     kinds = ["uniform", "clusters", "clusters", "lattice", "dups", "offset", "scaled", "gauss"]
     xs = gen_X(rng, kinds, 4, 80 if tier == "thorough" else 48, 2, 6)
+    if rng.random() < 0.25:
+        xs["scale_pow2"] = rng.choice([-30, -24, -20, -12, 10, 20])
     heap["X0"] = xs
     n_from = xs["shape"][0]
+    # a second data set with the same number of samples, for cold refits of the same object
+    refit = rng.random() < 0.3
+    if refit:
+        heap["X1"] = dict(gen_X(rng, kinds, n_from, n_from, xs["shape"][1], xs["shape"][1]))
+        if "scale_pow2" in xs and rng.random() < 0.5:
+            heap["X1"]["scale_pow2"] = xs["scale_pow2"]
     yn = None
     if rng.random() < 0.2:
         yn = "y0"
@@ -223,6 +243,8 @@ def gen_c06(rng, idx, tier, faults):
         lanes = [{"mode": "normal", "seed": _seed(rng)} for _ in range(2)]
     restart_at = rng.randrange(1, len(sched)) if (len(sched) > 1 and rng.random() < 0.3) else None
     forms = [p["n_to_select"]] + [n_form(rng, n, n_from) for n in sched[1:]]
+    refit_init = rng.randrange(n_from) if (refit and rng.random() < 0.6) else None
+    refit_X = rng.choice(["X0", "X1"]) if refit_init is not None else "X1"
     for li, clk in enumerate(lanes):
         name = f"e{li}"
         ops.append({"op": "NEW", "obj": name, "cls": "sample.VoronoiFPS", "params": dict(p), "lane": 0})
@@ -232,6 +254,13 @@ def gen_c06(rng, idx, tier, faults):
                 if restart_at == si:
                     ops.append({"op": "RESTART", "obj": name})
             ops.append({"op": "FIT", "obj": name, "X": "X0", "y": yn, "warm": si > 0, "env": {"clock": clk}})
+        if refit:
+            # cold refit of the same object: other data of equal size and/or another start
+            if refit_init is not None:
+                ops.append({"op": "SET", "obj": name, "params": {"initialize": refit_init, "n_to_select": forms[0]}})
+            else:
+                ops.append({"op": "SET", "obj": name, "params": {"n_to_select": forms[0]}})
+            ops.append({"op": "FIT", "obj": name, "X": refit_X, "y": None if refit_X == "X1" else yn, "warm": False, "env": {"clock": clk}})
     return {"heap": heap, "ops": ops}
 
 
@@ -299,7 +328,12 @@ def gen_c08(rng, idx, tier, faults):
         name = f"e{o}"
         q = dict(p)
         q["n_to_select"] = n_form(rng, sched[0], n_from)
-        seq = [{"op": "NEW", "obj": name, "cls": cls, "params": q, "final": final}]
+        if rng.random() < 0.3:
+            # a threshold fixed at construction that the cold fit misses by a modest margin
+            t = rng.choice(["absolute", "relative", "relative"])
+            q["score_threshold"] = {"$unreached": rng.uniform(0.5, 0.95), "type": t, "at_construction": True}
+            q["score_threshold_type"] = t
+        seq = [{"op": "NEW", "obj": name, "cls": cls, "params": q, "final": final, "X": xn, "y": yn}]
         mk_env = (lambda: env_fault(rng, fam, p, ["clock", "arpack", "rng"])) if faults else (lambda: quiet_env(rng, fam))
         for si, s in enumerate(sched):
             if si > 0:
@@ -307,7 +341,7 @@ def gen_c08(rng, idx, tier, faults):
                 r = rng.random()
                 if r < 0.15:
                     seq.append({"op": "RESTART", "obj": name})
-                elif r < 0.35:
+                elif r < 0.35 and "score_threshold" not in q:
                     t = rng.choice(["absolute", "relative"])
                     seq.append(
                         {
@@ -319,20 +353,20 @@ def gen_c08(rng, idx, tier, faults):
                             },
                         }
                     )
-                elif r < 0.42:
+                elif r < 0.42 and "score_threshold" not in q:
                     seq.append({"op": "SET", "obj": name, "params": {"score_threshold": None}})
             seq.append({"op": "FIT", "obj": name, "X": xn, "y": yn, "warm": si > 0, "env": mk_env()})
         if fam == "fps" and rng.random() < 0.35:
             # FPS initialised with the already selected prefix
             name2 = f"p{o}"
-            q2 = dict(q)
+            q2 = {k: v for k, v in q.items() if not k.startswith("score_threshold")}
             q2["n_to_select"] = final
             q2["initialize"] = {"$prefix_of": name, "len": rng.randint(1, final)}
             seq.append({"op": "NEW", "obj": name2, "cls": cls, "params": q2, "final": final, "twin_from": name})
             seq.append({"op": "FIT", "obj": name2, "X": xn, "y": yn, "warm": False, "env": mk_env()})
         if rng.random() < 0.1:
             name3 = f"u{o}"
-            seq.append({"op": "NEW", "obj": name3, "cls": cls, "params": dict(q), "final": final})
+            seq.append({"op": "NEW", "obj": name3, "cls": cls, "params": {k: v for k, v in q.items() if not k.startswith("score_threshold")}, "final": final})
             seq.append({"op": "FIT", "obj": name3, "X": xn, "y": yn, "warm": True, "expect": "reject", "env": None})
         plans.append(seq)
     while any(plans):
